@@ -71,6 +71,14 @@ answers of `new small`, `write`, `writeseg`, `sum` carry the literal model's obs
 chained digest of these snapshots after EVERY call), which the Go runner reads off the real
 `hashTrieWriter` through the `verif` hook `hashtrie.VerifPeek`.
 
+`leaves <n> <span> <seed>` (only in `new small` mode, elsewhere `noleaves`): `n` `ChainWrite` calls on the hash-trie writer
+ITSELF with `Span = le64 span` (any `span < 2^64`) and the `i`-th 32-byte piece of `genBytes seed (32 n)` as reference — the
+leaves' data never reaches that writer, so spans of `2^32` and more are reached without data.  The entries go to the list
+model (`HashTrie.feedEntry`, spans unbounded `Nat`, only `le64 span` = the bytes of `span mod 2^64` enters chunks) and the literal
+model (`uint64` sums as in Go); answer `<n> cw=… cur=… f=… live=… h=…` as for `write`.  After a `leaves` op `sum` is the
+writer's own `Sum` (feeder bypassed), the specification evaluated is `rootG (wrapE cref) B` over all leaf entries the trie was
+given, and the answer ends in `rs=<span header of the stored root chunk | ->`.
+
 The chunk reference function is `fastBmt` (ByteArray BMT over `Driver.Fast.keccak`), memoised per
 case on the chunk content.  It is cross-checked against the list model `Aurora.Cac.hashWith` by the
 `selftest` op.
